@@ -98,27 +98,27 @@ class ConcreteCtx:
         return self.real(name)
 
     # conditions ---------------------------------------------------------------
-    def _tol(self, a, b):
-        return self.abs + self.rel * max(abs(a), abs(b))
+    def _tol(self, a, b, scale=None):
+        return self.abs + self.rel * max(abs(a), abs(b), abs(float(scale)) if scale is not None else 0.0)
 
-    def eq(self, a, b):
+    def eq(self, a, b, scale=None):
         a, b = float(a), float(b)
         if math.isnan(a) or math.isnan(b):
             return False
-        return abs(a - b) <= self._tol(a, b)
+        return abs(a - b) <= self._tol(a, b, scale)
 
     def ne(self, a, b):
         return not self.eq(a, b)
 
-    def le(self, a, b):
+    def le(self, a, b, scale=None):
         a, b = float(a), float(b)
-        return a <= b + self._tol(a, b)
+        return a <= b + self._tol(a, b, scale)
 
     def lt(self, a, b):
         return float(a) < float(b)
 
-    def ge(self, a, b):
-        return self.le(b, a)
+    def ge(self, a, b, scale=None):
+        return self.le(b, a, scale)
 
     def close(self, a, b, rel=1e-6, abs_=0.0):
         """|a-b| <= rel*|b| + abs_ (b is the reference value)"""
@@ -147,6 +147,7 @@ class ConcreteCtx:
     def sin(self, x): return math.sin(x)
     def tan(self, x): return math.tan(x)
     def num(self, x): return float(x)
+    def angle_brackets(self, x, points): pass
 
     def frac(self, x):
         """x modulo 1, in [0, 1)"""
